@@ -303,9 +303,9 @@ func runKP(sc scenario) *result {
 		var err error
 		fx, err = wire.NewClientFixture(
 			grpc.WithKeepaliveParams(keepalive.ClientParameters{Time: sc.TimeArg, Timeout: sc.Timeout, PermitWithoutStream: sc.Permit}),
-			grpc.WithIdleTimeout(0),           // no channel idleness: the only reason to close is keepalive
-			grpc.WithInitialWindowSize(1<<16), // static windows: no BDP pings, every PING is a keepalive ping
-			grpc.WithInitialConnWindowSize(1<<16),
+			grpc.WithIdleTimeout(0),                // no channel idleness: the only reason to close is keepalive
+			grpc.WithStaticStreamWindowSize(1<<16), // static windows: no BDP pings, every PING is a keepalive ping
+			grpc.WithStaticConnWindowSize(1<<16),
 		)
 		if err != nil {
 			viol("harness", "fixture: %v", err)
@@ -352,7 +352,7 @@ func runKP(sc scenario) *result {
 		sfx := wire.NewServerFixture(handler,
 			grpc.KeepaliveParams(keepalive.ServerParameters{Time: sc.TimeArg, Timeout: sc.Timeout}),
 			grpc.KeepaliveEnforcementPolicy(keepalive.EnforcementPolicy{MinTime: ns, PermitWithoutStream: true}),
-			grpc.InitialWindowSize(1<<16), grpc.InitialConnWindowSize(1<<16))
+			grpc.StaticStreamWindowSize(1<<16), grpc.StaticConnWindowSize(1<<16))
 		sfx.Serve()
 		p, err := sfx.Connect()
 		if err != nil {
@@ -721,7 +721,7 @@ func runStrikes(sc sscenario) *result {
 	}
 	sfx := wire.NewServerFixture(handler,
 		grpc.KeepaliveEnforcementPolicy(keepalive.EnforcementPolicy{MinTime: sc.MinArg, PermitWithoutStream: sc.Permit}),
-		grpc.InitialWindowSize(1<<16), grpc.InitialConnWindowSize(1<<16))
+		grpc.StaticStreamWindowSize(1<<16), grpc.StaticConnWindowSize(1<<16))
 	sfx.Serve()
 	peer, err := sfx.Connect()
 	if err != nil {
@@ -932,7 +932,7 @@ func TestVerifC15(t *testing.T) {
 		if fam == "srvkp" {
 			side = "server"
 		}
-		n := r.N(260, 5000) / light()
+		n := r.N(1500, 20000) / light()
 		for i := 0; i < n; i++ {
 			if !r.Want(fam, i) {
 				continue
@@ -944,7 +944,7 @@ func TestVerifC15(t *testing.T) {
 			report(r, fam, i, sc, res)
 		}
 	}
-	n := r.N(400, 8000) / light()
+	n := r.N(2000, 30000) / light()
 	for i := 0; i < n; i++ {
 		if !r.Want("strikes", i) {
 			continue
